@@ -169,6 +169,9 @@ public:
   value_t fn_print(call_scope_t& scope);
   value_t fn_scrub(call_scope_t& scope);
   value_t fn_quantity(call_scope_t& scope);
+#if defined(LEDGER_VERIF)
+  value_t fn_verif_rational(call_scope_t& scope);
+#endif
   value_t fn_rounded(call_scope_t& scope);
   value_t fn_unrounded(call_scope_t& scope);
   value_t fn_truncated(call_scope_t& scope);
